@@ -51,16 +51,45 @@ namespace ikos {
 
 /* Notes about the % operator
  *
- * The semantics of r = n % d is to set r to "n mod d". The sign of
- * the d is ignored and r is always non-negative.
+ * Number::operator% truncates (the remainder has the sign of the
+ * dividend), so residues must be computed with congruence_impl::mod,
+ * which returns r = n mod d with 0 <= r < |d|.
  *
  * We assume that n % d (also n /d) raises a runtime error if d==0.
  */
+namespace congruence_impl {
+template <typename Number> Number mod(const Number &n, const Number &d) {
+  Number r = n % d;
+  if (r < 0) {
+    r = r + ((d < 0) ? -d : d);
+  }
+  return r;
+}
+// the inverse of p modulo m (p and m coprime, m > 1)
+template <typename Number>
+Number inverse_mod(const Number &p, const Number &m) {
+  Number old_r = mod(p, m), r = m;
+  Number old_s(1), s(0);
+  while (r != 0) {
+    Number q = old_r / r;
+    Number tmp = old_r - (q * r);
+    old_r = r;
+    r = tmp;
+    tmp = old_s - (q * s);
+    old_s = s;
+    s = tmp;
+  }
+  return mod(old_s, m);
+}
+} // end namespace congruence_impl
 
 template <typename Number> void congruence<Number>::normalize(void) {
   // Set to standard form: 0 <= b < a for a != 0
   if (m_a != 0) {
-    m_b = m_b % m_a;
+    if (m_a < 0) {
+      m_a = -m_a;
+    }
+    m_b = congruence_impl::mod(m_b, m_a);
   }
 }
 
@@ -178,16 +207,14 @@ bool congruence<Number>::operator<=(const congruence<Number> &o) const {
     return false;
   } else if (m_a == 0 && o.m_a == 0) {
     return (m_b == o.m_b);
-  } else if (m_a == 0) {
-    if ((m_b % o.m_a) == (o.m_b % o.m_a)) {
-      return true;
-    }
   } else if (o.m_a == 0) {
-    if (m_b % m_a == (o.m_b % m_a)) {
-      return false;
-    }
+    // an infinite set is never included in a singleton
+    return false;
   }
-  return (m_a % o.m_a == 0) && (m_b % o.m_a == o.m_b % o.m_a);
+  // aZ+b (or the singleton b if a == 0) <= a'Z+b' iff a' divides a
+  // and b = b' (mod a')
+  return (m_a % o.m_a == 0) && (congruence_impl::mod(m_b, o.m_a) ==
+                                congruence_impl::mod(o.m_b, o.m_a));
 }
 
 template <typename Number>
@@ -237,13 +264,17 @@ congruence<Number>::operator&(const congruence<Number> &o) const {
   } else {
     // pre: a and o.a != 0
     Number x = gcd(m_a, o.m_a);
-    if (m_b % x == (o.m_b % x)) {
-      // the part max(b,o.b) needs to be verified. What we really
-      // want is to find b'' such that
-      // 1) b'' % lcm(a,a') == b  % lcm(a,a'), and
-      // 2) b'' % lcm(a,a') == b' % lcm(a,a').
-      // An algorithm for that is provided in Granger'89.
-      return congruence<Number>(lcm(m_a, o.m_a), max(m_b, o.m_b));
+    if (congruence_impl::mod(m_b, x) == congruence_impl::mod(o.m_b, x)) {
+      // We want b'' such that b'' = b (mod a) and b'' = b' (mod a'):
+      // b'' = b + a*k where (a/x)*k = (b'-b)/x (mod a'/x).
+      Number m = o.m_a / x;
+      Number k(0);
+      if (m != 1) {
+        k = congruence_impl::mod(((o.m_b - m_b) / x) *
+                                     congruence_impl::inverse_mod(m_a / x, m),
+                                 m);
+      }
+      return congruence<Number>(lcm(m_a, o.m_a), m_b + (m_a * k));
     } else {
       return congruence<Number>::bottom();
     }
@@ -319,36 +350,27 @@ congruence<Number>::operator/(const congruence<Number> &o) const {
   else if (this->is_top() || o.is_top())
     return congruence<Number>::top();
   else {
+    // Number division truncates, so the classical formulas (stated
+    // for the Euclidean division) only hold when the division is
+    // exact.
+    if (m_a == 0 && o.m_a == 0) {
+      // both singletons
+      return congruence<Number>(m_b / o.m_b);
+    }
     /*
        aZ+b / 0Z+b':
-          if b'|a then  (a/b')Z + b/b'
-          else          top
+          if b'|a and b'|b then  (a/b')Z + b/b'
+          else                   top
     */
     if (o.m_a == 0) {
-      if (m_a % o.m_b == 0)
+      if (m_a % o.m_b == 0 && m_b % o.m_b == 0)
         return congruence<Number>(m_a / o.m_b, m_b / o.m_b);
       else
         return congruence<Number>::top();
     }
 
     /*
-         0Z+b / a'Z+b':
-            if N>0   (b div N)Z + 0
-            else     0Z + 0
-
-           where N = a'((b-b') div a') + b'
-    */
-    if (m_a == 0) {
-      Number n(o.m_a * (((m_b - o.m_b) / o.m_a) + o.m_b));
-      if (n > 0) {
-        return congruence<Number>(m_b / n, Number(0));
-      } else {
-        return congruence<Number>(Number(0), Number(0));
-      }
-    }
-
-    /*
-      General case: no singleton
+      General case: the divisor is not a singleton
     */
     return congruence<Number>::top();
   }
@@ -365,41 +387,15 @@ congruence<Number>::operator%(const congruence<Number> &o) const {
   else if (this->is_top() || o.is_top())
     return congruence<Number>::top();
   else {
-    /*
-         aZ+b mod 0Z+b':
-             if b'|a then  (a/b')Z + b/b'
-             else          top
-    */
-    if (o.m_a == 0) {
-      if (m_a % o.m_b == 0) {
-        return congruence<Number>(Number(0), m_b % o.m_b);
-      } else {
-        return congruence<Number>(gcd(m_a, o.m_b), m_b);
-      }
+    if (m_a == 0 && o.m_a == 0) {
+      // both singletons
+      return congruence<Number>(m_b % o.m_b);
     }
     /*
-          0Z+b mod a'Z+b':
-           if N<=0           then 0Z+b
-           if (b div N) == 1 then gcd(b',a')Z + b
-           if (b div N) >= 2 then N(b div N)Z  + b
-
-         where N = a'((b-b') div a') + b'
-    */
-    if (m_a == 0) {
-      Number n(o.m_a * (((m_b - o.m_b) / o.m_a) + o.m_b));
-      if (n <= 0) {
-        return congruence<Number>(m_a, m_b);
-      } else if (m_b == n) {
-        return congruence<Number>(gcd(o.m_b, o.m_a), m_b);
-      } else if ((m_b / n) >= 2) {
-        return congruence<Number>(m_b, m_b);
-      } else {
-        CRAB_ERROR("unreachable");
-      }
-    }
-
-    /*
-      general case: no singleton
+      x % y = x - y*q for some integer q, x = b (mod a) and y is a
+      multiple of gcd(a', b'), so x % y = b (mod gcd(a, a', b')).
+      This holds for the truncated remainder (the sign of the result
+      is the one of x).
     */
     return congruence<Number>(gcd(m_a, o.m_a, o.m_b), m_b);
   }
